@@ -1108,7 +1108,7 @@ func c02Do(in *c02In) (c02Obs, error) {
 	}
 	if in.isRange() {
 		probe := doRaw(addr, "HEAD", in.Target, hdr, nil)
-		c02CondHeaders(in, hdr, probe.Header)
+		c02CondHeaders(in, tree, hdr, probe.Header)
 	}
 	resp := doRaw(addr, in.Method, in.Target, hdr, nil)
 	o := c02Obs{Status: resp.Status, BodyLen: len(resp.Body), Err: resp.Err}
